@@ -173,7 +173,9 @@ Proof.
   intros Hs. unfold step. cbv zeta.
   change (nisnan ROps _) with false. cbv iota.
   pose proof (scale_pos (sf1 s) (sf2 s) (f ((sx1 s + sx2 s) / 2)) Hs) as Hsc.
-  cbn [nadd nsub nmul ndiv nabs nsqrt nofZ ROps] in *.
+  unfold ndec. cbn [nadd nsub nmul ndiv nabs nsqrt nofZ ROps] in *.
+  (* the midpoint 0.5 * x1 + 0.5 * x2 of the source is (x1 + x2) / 2 *)
+  replace (1 / 2 * sx1 s + 1 / 2 * sx2 s) with ((sx1 s + sx2 s) / 2) by lra.
   set (sc := nmax ROps (Rabs (f ((sx1 s + sx2 s) / 2))) (nmax ROps (Rabs (sf1 s)) (Rabs (sf2 s)))) in *.
   replace (sf1 s / sc - sf2 s / sc) with ((sf1 s - sf2 s) / sc) by (field; lra).
   rewrite (sign1_scaled _ sc Hsc).
